@@ -155,7 +155,14 @@ class Field:
         node = self._Get_current_active_node()
         N_pg = self.groupElem.Get_N_pg(self.__matrixType)
         nPg, _, _ = N_pg.shape
-        array = FeArray.asfearray(N_pg[..., node].reshape(1, nPg, 1))
+        dof_n = self.__dof_n
+        if dof_n == 1:
+            array = FeArray.asfearray(N_pg[..., node].reshape(1, nPg, 1))
+        else:
+            # vector field: the shape function sits in the component of the active dof
+            dof = self._Get_current_active_dof()
+            array = FeArray.zeros(1, nPg, dof_n, dtype=float)
+            array[..., dof] = N_pg[..., node].reshape(1, nPg)
         return array
 
     def dot(self, other):
